@@ -20,12 +20,20 @@ What is proved, and what the combined model shows that neither `C07` nor `C08` c
   about to swap, that visit holds the shard's read lock, and the purge takes the write lock.
   (`C07.no_pre_token_dropped` itself is FALSE in the combined model: `purge_drops_registry_pre_token`.)
 * `life_barrier_after_final_pass` — from the end of the final pass on, every barrier token is in `delivered`
-  exactly once OR is held by an application thread's re-acquire visit in flight (`ReacquireHolds`); the clean
-  statement under `¬ ReacquireInFlight` is `life_final_flush_complete`.
+  exactly once OR is held by an application thread's re-acquire visit in flight (`ReacquireHolds`).  That residual
+  exists only while the winning call waits for the purge's write lock; after the purge it is empty
+  (`life_barrier_after_purge`).
+* REPAIRED ORDER (final pass, purge, THEN `Flush`): `life_final_flush_complete` — when the winning call is about to
+  call its final `Flush`, every barrier token is in `delivered` exactly once, with no side condition; and
+  `life_final_flush_covers_everything` — once that flush is logged (`flush n`, `n` = number of deliveries so far),
+  in every later state every barrier token is in `delivered` exactly once at a position (counted from the oldest)
+  below `n`: its delivery precedes the final flush.  No hypothesis about re-acquire visits in flight.
 * `life_close_barrier` — when the winning call has returned the residual is EMPTY (`¬ ReacquireInFlight`, again by
   the purge's write lock): every barrier token is in `delivered` exactly once, unconditionally.
-* the residual is real at the final FLUSH: `reacquire_in_flight_delivers_after_final_flush` (a barrier token reaches
-  the reporter after the last `Flush`, before the reporter's `Close`).
+* the code BEFORE the repair (final pass, `Flush`, purge: `ScopeLife.Legacy`) did not have that property:
+  `legacy_reacquire_in_flight_delivers_after_final_flush` (a barrier token reaches the reporter after the last `Flush`,
+  before the reporter's `Close`); the same schedule on the repaired model delivers the token BEFORE the final flush
+  (`repaired_reacquire_in_flight_delivers_before_final_flush`).
 * `reacquire_in_flight_may_deliver_after_close` — an application thread that entered `Subscope` before the root's
   CAS makes the (closed) reporter receive a delivery after the winning `Close` returned.  In this model (one shard,
   purge under the write lock) what is delivered late can NOT be a barrier token (`life_close_barrier`); it is a token
@@ -109,7 +117,7 @@ theorem life_no_pre_token_dropped_before_purge {s : State} {es : List Ev} (hsan 
 in the Registry sense (its subscope was not closed) and is cleared away by the purge: `C07.no_pre_token_dropped`
 does not lift to the combined model; `life_no_barrier_token_dropped` is the statement that does
 (the token is not in `preRoot`).  Thread 1 creates scope 1 (key 7); root `Close`: CAS, `close(done)`, wait, final
-pass over keys 7 and 0; then the record; flush, purge. -/
+pass over keys 7 and 0; then the record; purge, flush. -/
 def purgeDropsRun : List Ev :=
   [.obtain 1 7, .step 1 0, .step 1 0, .step 1 0,
    .closer 0 0, .closer 0 0, .closer 0 0, .closer 0 0,
@@ -149,9 +157,9 @@ theorem delivered_once {s : State} {es : List Ev} (hsan : ∀ k, san (san k) = s
   simp only [List.map_append, List.count_append] at h2
   omega
 
-/-- **after the final pass** (the winning call `w` is about to `Flush`, to purge, to close the reporter, or has
+/-- **after the final pass** (the winning call `w` is about to purge, to `Flush`, to close the reporter, or has
 returned): every barrier token is in `delivered` — exactly once — or is held by an application thread's re-acquire
-visit in flight. -/
+visit in flight (possible only while `w` is about to purge: `life_barrier_after_purge`). -/
 theorem life_barrier_after_final_pass {s : State} {es : List Ev} (hsan : ∀ k, san (san k) = san k) {hl cl : Bool}
     {er : Option Nat} (hr : run san (init san hl cl er) es = some s) (w : Nat) (hw : 5 ≤ ph (s.closers w)) :
     ∀ tok ∈ s.reg.delivered ++ allCells s.reg ++ allPending s.reg ++ s.reg.dropped, Barrier s tok →
@@ -189,7 +197,8 @@ theorem life_barrier_after_final_pass {s : State} {es : List Ev} (hsan : ∀ k, 
       unfold Cov at hcov
       cases hcw : s.closers w <;> rw [hcw] at hcov hw <;> simp [ph] at hw
       · exact hcov
-      · exact hcov
+      · exact absurd ⟨x, tok, hx, hmx, hb⟩
+          (h.tok.base.purgedCold (by rw [h.ctl.purged_iff, wpc_of_winner hwin, hcw]; simp [ph]) sid)
       · exact absurd ⟨x, tok, hx, hmx, hb⟩
           (h.tok.base.purgedCold (by rw [h.ctl.purged_iff, wpc_of_winner hwin, hcw]; simp [ph]) sid)
       · exact absurd ⟨x, tok, hx, hmx, hb⟩
@@ -217,54 +226,20 @@ theorem life_barrier_after_final_pass {s : State} {es : List Ev} (hsan : ∀ k, 
     | _ => rw [hpc] at ht; simp [Registry.pendingOf] at ht
   · exact absurd hb (h.tok.base.dropNoB tok hm)
 
-/-- **the final `Flush` is complete unless a re-acquire is in flight**: when the winning call is about to call
-`Flush` after its final pass and no application thread's re-acquire visit holds a barrier token, every barrier token
-has reached the reporter (exactly once) — so the flush covers them all. -/
-theorem life_final_flush_complete {s : State} {es : List Ev} (hsan : ∀ k, san (san k) = san k) {hl cl : Bool}
-    {er : Option Nat} (hr : run san (init san hl cl er) es = some s) (w : Nat) (hpc : s.closers w = .flushPc)
-    (hno : ¬ ReacquireInFlight s) :
-    ∀ tok ∈ s.reg.delivered ++ allCells s.reg ++ allPending s.reg ++ s.reg.dropped, Barrier s tok →
-      tok ∈ s.reg.delivered ∧ (s.reg.delivered.map (·.id)).count tok.id = 1 := by
-  intro tok hm hb
-  rcases life_barrier_after_final_pass hsan hr w (by rw [hpc]; simp [ph]) tok hm hb with h1 | h1
-  · exact h1
-  · exact absurd ⟨tok, hb, h1⟩ hno
-
 /-- once the registry has been purged no re-acquire visit holds a barrier token: the purge took the shard's write
 lock (no visit was in flight then), and afterwards no barrier token is in a cell -/
 theorem no_reacquire_after_purge {s : State} (h : LifeInv san s) (hpur : s.purged = true) : ¬ ReacquireInFlight s := by
   rintro ⟨tok, hb, t, _, ⟨r', sid, x, _, hx, hm⟩ | ⟨r', sid, pd, hpc, hm⟩⟩
   · exact h.tok.base.purgedCold hpur sid ⟨x, tok, hx, hm, hb⟩
-  · refine h.tok.base.pendNoB hpur tok ?_ hb
-    rw [Registry.allPending_eq]
-    have hl : (pcOf s.reg t) = .obtDeliver r' sid pd := hpc
-    cases hlk : s.reg.pcs.lookup t with
-    | none => simp [pcOf, hlk] at hl
-    | some p =>
-      simp only [pcOf, hlk, Option.getD_some] at hl
-      subst hl
-      have hmem : (t, Pc.obtDeliver r' sid pd) ∈ s.reg.pcs := by
-        generalize s.reg.pcs = l at hlk
-        induction l with
-        | nil => simp [List.lookup] at hlk
-        | cons a l ih =>
-          obtain ⟨k, v⟩ := a
-          by_cases hk : t = k
-          · subst hk
-            simp only [List.lookup, beq_self_eq_true, Option.some.injEq] at hlk
-            subst hlk; exact List.mem_cons_self ..
-          · have : (t == k) = false := by simp [hk]
-            simp only [List.lookup, this] at hlk
-            exact List.mem_cons_of_mem _ (ih hlk)
-      simp only [Registry.pend, List.mem_flatten, List.mem_map]
-      exact ⟨pd, ⟨(t, .obtDeliver r' sid pd), hmem, rfl⟩, hm⟩
+  · exact h.tok.base.pendNoB hpur tok (Registry.mem_allPending_of_pcOf (t := t) (by rw [hpc]; exact hm)) hb
 
-/-- **after the purge** (the winning call `w` is about to close the reporter, or has returned): every barrier token
-is in `delivered`, exactly once, and no re-acquire visit in flight holds one.  In particular every barrier token has
-reached the reporter BEFORE the reporter's `Close` is called (`reporter_close_step`: the entry `reporterClose n` is
-logged by the very next step of `w`, with `n = delivered.length`). -/
+/-- **after the purge** (the winning call `w` is about to call its final `Flush`, to close the reporter, or has
+returned): every barrier token is in `delivered`, exactly once, and no re-acquire visit in flight holds one.  In
+particular every barrier token has reached the reporter BEFORE the final `Flush` is called (`final_flush_step`: the
+entry `flush n` is logged by the very next step of `w`, with `n = delivered.length`), hence before the reporter's
+`Close` (`reporter_close_step`). -/
 theorem life_barrier_after_purge {s : State} {es : List Ev} (hsan : ∀ k, san (san k) = san k) {hl cl : Bool}
-    {er : Option Nat} (hr : run san (init san hl cl er) es = some s) (w : Nat) (hw : 7 ≤ ph (s.closers w)) :
+    {er : Option Nat} (hr : run san (init san hl cl er) es = some s) (w : Nat) (hw : 6 ≤ ph (s.closers w)) :
     (∀ tok ∈ s.reg.delivered ++ allCells s.reg ++ allPending s.reg ++ s.reg.dropped, Barrier s tok →
       tok ∈ s.reg.delivered ∧ (s.reg.delivered.map (·.id)).count tok.id = 1) ∧ ¬ ReacquireInFlight s := by
   have h := life_inv_reach hsan hr
@@ -277,11 +252,32 @@ theorem life_barrier_after_purge {s : State} {es : List Ev} (hsan : ∀ k, san (
   · exact h1
   · exact absurd ⟨tok, hb, h1⟩ hno
 
-/-- the steps that write the log: the final `Flush` logs `flush n` and the reporter's `Close` logs `reporterClose n`
-with `n` = the number of tokens delivered so far; neither touches the shard -/
+/-- **the final `Flush` is complete** (repaired order: the purge comes first): when the winning call is about to call
+`Flush` after its final pass and the purge, every barrier token has reached the reporter (exactly once) — so the flush
+covers them all — and no application thread's re-acquire visit holds one.  No side condition (before the repair this
+needed `¬ ReacquireInFlight s`, and `legacy_reacquire_in_flight_delivers_after_final_flush` shows it was needed). -/
+theorem life_final_flush_complete {s : State} {es : List Ev} (hsan : ∀ k, san (san k) = san k) {hl cl : Bool}
+    {er : Option Nat} (hr : run san (init san hl cl er) es = some s) (w : Nat) (hpc : s.closers w = .flushPc) :
+    (∀ tok ∈ s.reg.delivered ++ allCells s.reg ++ allPending s.reg ++ s.reg.dropped, Barrier s tok →
+      tok ∈ s.reg.delivered ∧ (s.reg.delivered.map (·.id)).count tok.id = 1) ∧ ¬ ReacquireInFlight s :=
+  life_barrier_after_purge hsan hr w (by rw [hpc]; simp [ph])
+
+/-- the steps of the winning call after its final pass: the purge needs the shard's write lock (no reader) and writes
+nothing to the log; the final `Flush` logs `flush n` and the reporter's `Close` logs `reporterClose n` with `n` = the
+number of tokens delivered so far; neither of these two touches the shard -/
+theorem final_purge_step {s s' : State} {t c : Nat} (hpc : s.closers t = .purgePc)
+    (hs : step san s (.closer t c) = some s') :
+    s.reg.readers = [] ∧ s'.reg = purgeReg s.reg ∧ s'.log = s.log ∧ s'.closers t = .flushPc := by
+  simp only [step, hpc] at hs
+  split at hs
+  · next hrd =>
+    simp only [Option.some.injEq] at hs; subst hs
+    exact ⟨List.isEmpty_iff.mp hrd, rfl, rfl, by simp [setC]⟩
+  · cases hs
+
 theorem final_flush_step {s s' : State} {t c : Nat} (hpc : s.closers t = .flushPc)
     (hs : step san s (.closer t c) = some s') :
-    s'.log = .flush s.reg.delivered.length :: s.log ∧ s'.closers t = .purgePc ∧ s'.reg = s.reg := by
+    s'.log = .flush s.reg.delivered.length :: s.log ∧ s'.closers t = .reporterClose ∧ s'.reg = s.reg := by
   simp only [step, hpc, Option.some.injEq] at hs; subst hs
   exact ⟨rfl, by simp [setC], rfl⟩
 
@@ -294,11 +290,74 @@ theorem reporter_close_step {s s' : State} {t c : Nat} (hpc : s.closers t = .rep
   · next hcl => simp [hcl, setC]
   · next hcl => simp [hcl, setC]
 
+/-- **the final `Flush` covers everything** (repaired order: final pass, purge, `Flush`).  In every reachable state in
+which the winning `Close` call `w` has logged its final flush (it is about to close the reporter, or has returned):
+* the log is `flush n :: rest`, or `reporterClose k :: flush n :: rest` (the reporter's `Close` after the flush): `flush n`
+  is the LAST flush, and `n` is the number of tokens that had been delivered when it was called;
+* every barrier token is in `delivered`, exactly once, and its position in `delivered` counted from the oldest delivery
+  (`delivered` is most recent first, so this is the position in `delivered.reverse`) is below `n`: the token was
+  delivered BEFORE the final flush.
+There is no hypothesis about re-acquire visits in flight: a visit that holds a barrier token holds the shard's read
+lock, the purge waits for it, and the flush comes after the purge. -/
+theorem life_final_flush_covers_everything {s : State} {es : List Ev} (hsan : ∀ k, san (san k) = san k)
+    {hl cl : Bool} {er : Option Nat} (hr : run san (init san hl cl er) es = some s) (w : Nat)
+    (hw : s.closers w = .reporterClose ∨ ∃ r, s.closers w = .returned r) :
+    ∃ n rest, (s.log = .flush n :: rest ∨ ∃ k, s.log = .reporterClose k :: .flush n :: rest) ∧
+      n ≤ s.reg.delivered.length ∧
+      ∀ tok ∈ s.reg.delivered ++ allCells s.reg ++ allPending s.reg ++ s.reg.dropped, Barrier s tok →
+        tok ∈ s.reg.delivered ∧ (s.reg.delivered.map (·.id)).count tok.id = 1 ∧
+        ∃ i, i < n ∧ s.reg.delivered.reverse[i]? = some tok := by
+  have h := life_inv_reach hsan hr
+  have h7 : 7 ≤ ph (s.closers w) := by
+    rcases hw with hw | ⟨r, hw⟩ <;> rw [hw] <;> simp [ph]
+  have hwin : s.winner = some w := h.ctl.winner_of w (by omega)
+  have hwpc := wpc_of_winner hwin
+  obtain ⟨n, newer, older, hlf, hdel, hlen, hnb⟩ := ffc_reach hsan hr (by rw [hwpc]; exact h7)
+  have hlog : ∃ rest, s.log = .flush n :: rest ∨ ∃ k, s.log = .reporterClose k :: .flush n :: rest := by
+    rcases hw with hw | ⟨r, hw⟩
+    · obtain ⟨m, rest, hl⟩ := h.ctl.logFlush (by rw [hwpc, hw]; simp [ph]) (by rw [hwpc, hw]; simp [ph])
+      rw [hl] at hlf
+      simp only [lastFlush, Option.some.injEq] at hlf
+      subst hlf
+      exact ⟨rest, Or.inl hl⟩
+    · obtain ⟨k, m, rest, hl⟩ := h.ctl.logRet (by rw [hwpc, hw]; simp [ph])
+      cases hcl : s.closable with
+      | true =>
+        rw [hcl] at hl
+        simp only [if_true] at hl
+        rw [hl] at hlf
+        simp only [lastFlush, Option.some.injEq] at hlf
+        subst hlf
+        exact ⟨rest, Or.inr ⟨k, hl⟩⟩
+      | false =>
+        rw [hcl] at hl
+        simp only [Bool.false_eq_true, if_false] at hl
+        rw [hl] at hlf
+        simp only [lastFlush, Option.some.injEq] at hlf
+        subst hlf
+        exact ⟨rest, Or.inl hl⟩
+  obtain ⟨rest, hlog⟩ := hlog
+  refine ⟨n, rest, hlog, by rw [hdel, List.length_append]; omega, ?_⟩
+  intro tok hm hb
+  obtain ⟨hmd, hcnt⟩ := (life_barrier_after_purge hsan hr w (by omega)).1 tok hm hb
+  refine ⟨hmd, hcnt, ?_⟩
+  have hold : tok ∈ older := by
+    rw [hdel] at hmd
+    rcases List.mem_append.mp hmd with h1 | h1
+    · exact absurd hb (hnb tok h1)
+    · exact h1
+  obtain ⟨i, hi⟩ := List.mem_iff_getElem?.mp (List.mem_reverse.mpr hold)
+  have hilt : i < older.reverse.length := (List.getElem?_eq_some_iff.mp hi).1
+  refine ⟨i, by rw [← hlen, ← List.length_reverse]; exact hilt, ?_⟩
+  rw [hdel, List.reverse_append, List.getElem?_append_left hilt]
+  exact hi
+
 /-- **C08 over a live registry, barrier.**  In every reachable state in which the winning `Close` call has returned:
 * no re-acquire visit in flight holds a barrier token (the purge took the shard's write lock, a visit holds the read
   lock), and every barrier token is in `delivered`, exactly once; none is in a cell, pending, or dropped;
 * every id in `preRoot` is the id of an issued token (so the statement is about all of them);
-* the log ends with `flush` followed — iff the reporter is closable — by `reporterClose`, the only one in the log;
+* the log ends with `flush` followed — iff the reporter is closable — by `reporterClose`, the only one in the log
+  (that `flush` covers every barrier token: `life_final_flush_covers_everything`);
 * the loop goroutine has exited, its thread and the threads of all `Close` calls are idle (no pass of thread 0 or
   1000+ is in flight), the registry has been purged. -/
 theorem life_close_barrier {s : State} {es : List Ev} (hsan : ∀ k, san (san k) = san k) {hl cl : Bool}
@@ -440,7 +499,7 @@ theorem id_idem : ∀ k : Nat, id (id k) = id k := fun _ => rfl
 /-- (no loop, closable reporter, identity sanitizer)  Thread 1 creates subscope 1 (key 7), records token 0 on it and
 closes it.  Threads 2 and 3 enter `Subscope(7)` — they pass the root-closed check — and are descheduled before
 taking the read lock.  Root `Close` (call 0): CAS, `close(done)`, wait, final pass (visits key 7: delivers token 0,
-unregisters and clears the closed subscope 1; visits key 0: the root itself), flush, purge, reporter `Close`, return. -/
+unregisters and clears the closed subscope 1; visits key 0: the root itself), purge, flush, reporter `Close`, return. -/
 def lateRun : List Ev :=
   [.obtain 1 7, .step 1 0, .step 1 0, .step 1 0, .record 1, .close 1,
    .obtain 2 7, .obtain 3 7,
@@ -486,14 +545,14 @@ example : ∃ s, run id (init id false true) lateRun = some s ∧ ¬ ReacquireIn
   have h4 := life_silent_after_close_partial (es' := []) id_idem hr 0 none hret rfl
   exact ⟨s, hr, h2, h3, h4.2.2.2.1⟩
 
-/-! ## the residual is real at the final flush -/
+/-! ## before the repair the residual was real at the final flush; the repaired order removes it -/
 
 /-- Thread 1 creates subscope 1 (key 7) and records token 0 on it (a barrier token); thread 2 enters `Subscope(7)`.
 Root `Close` (call 0): CAS, `close(done)`, wait, final pass: visits key 0 (the root), then picks key 7 while
 subscope 1 is still LIVE (flag read as false).  Subscope 1 is closed; thread 2 finds it closed: re-acquire visit,
-swaps token 0 out (holding the read lock).  The final pass swaps nothing, ends, `Flush` (nothing delivered so far);
-the purge is blocked by thread 2's read lock; thread 2 delivers token 0 and releases the lock; purge, reporter
-`Close`, return. -/
+swaps token 0 out (holding the read lock).  The final pass swaps nothing and ends (23 events so far).
+CODE BEFORE THE REPAIR: `Flush` (nothing delivered so far); the purge is blocked by thread 2's read lock; thread 2
+delivers token 0 and releases the lock; purge, reporter `Close`, return. -/
 def lateFlushRun : List Ev :=
   [.obtain 1 7, .step 1 0, .step 1 0, .step 1 0, .record 1, .obtain 2 7,
    .closer 0 0, .closer 0 0, .closer 0 0, .closer 0 0,
@@ -505,20 +564,78 @@ def lateFlushRun : List Ev :=
    .closer 0 0, .closer 0 0]
 
 set_option maxRecDepth 100000 in
-/-- **a barrier token can reach the reporter after the final `Flush`** (and before the reporter's `Close`): after 24
-events call 0 has flushed (`flush 0`: nothing delivered before) and is blocked at the purge, thread 2 holds the
-barrier token 0 pending; at the end the token is delivered — once, before `reporterClose 1` — but after the last
-flush.  This is the residual `ReacquireInFlight` of `life_final_flush_complete`. -/
-theorem reacquire_in_flight_delivers_after_final_flush :
-    (run id (init id false true) (lateFlushRun.take 24)).map
+/-- **before the repair a barrier token could reach the reporter after the final `Flush`** (and before the reporter's
+`Close`): on the model of the code BEFORE the repair (`ScopeLife.Legacy`: final pass, `Flush`, purge), after 24 events
+call 0 has flushed (`flush 0`: nothing delivered before) and is blocked at the purge, thread 2 holds the barrier token 0
+pending; at the end the token is delivered — once, before `reporterClose 1` — but after the last flush. -/
+theorem legacy_reacquire_in_flight_delivers_after_final_flush :
+    (Legacy.run id (init id false true) (lateFlushRun.take 24)).map
         (fun s => (s.closers 0, s.log, s.reg.delivered, s.preRoot))
       = some (.purgePc, [.flush 0], [], [0]) ∧
-    (run id (init id false true) (lateFlushRun.take 24)).map
-        (fun s => (pcOf s.reg 2, (step id s (.closer 0 0)).isSome))
+    (Legacy.run id (init id false true) (lateFlushRun.take 24)).map
+        (fun s => (pcOf s.reg 2, (Legacy.step id s (.closer 0 0)).isSome))
       = some (.obtDeliver 7 1 [{ id := 0, scope := 1, pre := true }], false) ∧
-    (run id (init id false true) lateFlushRun).map (fun s => (s.closers 0, s.log, s.reg.delivered, s.preRoot))
+    (Legacy.run id (init id false true) lateFlushRun).map (fun s => (s.closers 0, s.log, s.reg.delivered, s.preRoot))
       = some (.returned none, [.reporterClose 1, .flush 0], [{ id := 0, scope := 1, pre := true }], [0]) := by
   refine ⟨?_, ?_, ?_⟩ <;> decide
+
+/-- the same schedule for the REPAIRED code: the first 23 events are those of `lateFlushRun` (up to the end of the final
+pass, thread 2 holding token 0 pending under the read lock).  The next action of call 0 is now the PURGE, which is
+blocked by thread 2's read lock (event 24 of `lateFlushRun` is not enabled), so call 0 waits: thread 2 delivers token 0
+and releases the lock; then purge, `Flush`, reporter `Close`, return.  (The same 28 events; call 0's three last
+actions come after thread 2's two.) -/
+def repairedFlushRun : List Ev :=
+  lateFlushRun.take 23 ++ [.step 2 0, .step 2 0, .closer 0 0, .closer 0 0, .closer 0 0]
+
+set_option maxRecDepth 100000 in
+/-- **on the repaired model the same schedule delivers the token BEFORE the final flush**: after the 23 common events
+call 0 is about to purge, nothing is logged or delivered, thread 2 holds the barrier token 0 pending and call 0's next
+action is NOT enabled (the purge waits for thread 2's read lock) — so `lateFlushRun` itself, whose event 24 is that
+action, is not a run of the repaired model; when call 0 does purge (after thread 2's delivery) and flushes, the flush
+counts the delivery: the log ends `[reporterClose 1, flush 1]`. -/
+theorem repaired_reacquire_in_flight_delivers_before_final_flush :
+    (run id (init id false true) (lateFlushRun.take 23)).map
+        (fun s => (s.closers 0, s.log, s.reg.delivered, s.preRoot))
+      = some (.purgePc, [], [], [0]) ∧
+    (run id (init id false true) (lateFlushRun.take 23)).map
+        (fun s => (pcOf s.reg 2, (step id s (.closer 0 0)).isSome))
+      = some (.obtDeliver 7 1 [{ id := 0, scope := 1, pre := true }], false) ∧
+    (run id (init id false true) lateFlushRun).isSome = false ∧
+    (run id (init id false true) (repairedFlushRun.take 26)).map
+        (fun s => (s.closers 0, s.log, s.reg.delivered, s.purged))
+      = some (.flushPc, [], [{ id := 0, scope := 1, pre := true }], true) ∧
+    (run id (init id false true) repairedFlushRun).map (fun s => (s.closers 0, s.log, s.reg.delivered, s.preRoot))
+      = some (.returned none, [.reporterClose 1, .flush 1], [{ id := 0, scope := 1, pre := true }], [0]) := by
+  refine ⟨?_, ?_, ?_, ?_, ?_⟩ <;> decide
+
+set_option maxRecDepth 100000 in
+/-- the requested form: the schedule of the old counterexample, run on the REPAIRED model, ends with the token
+delivered before the final flush (`flush 1`: the delivery is counted in the flush) -/
+example :
+    (run id (init id false true) repairedFlushRun).map (fun s => (s.log, s.reg.delivered))
+      = some ([.reporterClose 1, .flush 1], [{ id := 0, scope := 1, pre := true }]) := by decide
+
+set_option maxRecDepth 100000 in
+/-- `life_final_flush_covers_everything` applies to that run, and what it says can be read off: the barrier token 0 is
+at position 0 (counted from the oldest) of `delivered`, below the `1` of the final `flush 1` -/
+example : ∃ s, run id (init id false true) repairedFlushRun = some s ∧ s.closers 0 = .returned none ∧
+    ∃ n rest, (s.log = .flush n :: rest ∨ ∃ k, s.log = .reporterClose k :: .flush n :: rest) ∧ n = 1 ∧
+      ∀ tok ∈ s.reg.delivered ++ allCells s.reg ++ allPending s.reg ++ s.reg.dropped, Barrier s tok →
+        tok ∈ s.reg.delivered ∧ (s.reg.delivered.map (·.id)).count tok.id = 1 ∧
+        ∃ i, i < n ∧ s.reg.delivered.reverse[i]? = some tok := by
+  have hs : (run id (init id false true) repairedFlushRun).isSome = true := by decide
+  obtain ⟨s, hr⟩ := Option.isSome_iff_exists.mp hs
+  have hfin := repaired_reacquire_in_flight_delivers_before_final_flush.2.2.2.2
+  rw [hr] at hfin
+  simp only [Option.map_some, Option.some.injEq, Prod.mk.injEq] at hfin
+  obtain ⟨hret, hlog, _, _⟩ := hfin
+  obtain ⟨n, rest, hl, _, hall⟩ := life_final_flush_covers_everything id_idem hr 0 (Or.inr ⟨none, hret⟩)
+  refine ⟨s, hr, hret, n, rest, hl, ?_, hall⟩
+  rw [hlog] at hl
+  rcases hl with hl | ⟨k, hl⟩
+  · cases hl
+  · simp only [List.cons.injEq, LogEv.reporterClose.injEq, LogEv.flush.injEq] at hl
+    exact hl.2.1.symm
 
 
 /-! ## non-vacuity: a subscope closed and re-acquired during a periodic pass, then root `Close`
@@ -531,7 +648,7 @@ release the read lock for their removals, the pass removes and clears subscope 1
 ends and flushes; thread 2 finishes its removals and creates subscope 2 (key 7); token 2 is recorded on it.
 Root `Close` (call 0): CAS; token 3 is recorded on subscope 2 (after the CAS: not a barrier token); `close(done)`,
 the loop exits, wait, final pass (key 7: delivers tokens 3 and 2; key 0: the closed root is removed and cleared),
-flush, purge, reporter `Close`, return 7. -/
+purge, flush, reporter `Close`, return 7. -/
 def nvRun : List Ev :=
   [.obtain 1 7, .step 1 0, .step 1 0, .step 1 0, .record 1, .record 0, .close 1,
    .tick, .loop 0, .loop 0, .loop 7,
@@ -587,23 +704,37 @@ example : ∃ s, run id (init id true true (some 7)) nvRun = some s ∧ s.closer
   simp [Barrier, hpre]
 
 set_option maxRecDepth 100000 in
-/-- `life_final_flush_complete` applies to that run at its final flush (after 54 events call 0 is about to flush and no
-re-acquire is in flight: every thread of the shard is idle) -/
-example : ∃ s, run id (init id true true (some 7)) (nvRun.take 54) = some s ∧ s.closers 0 = .flushPc ∧
-    ¬ ReacquireInFlight s := by
-  have hs : (run id (init id true true (some 7)) (nvRun.take 54)).isSome = true := by decide
-  obtain ⟨s, hr⟩ := Option.isSome_iff_exists.mp hs
-  have h1 : (run id (init id true true (some 7)) (nvRun.take 54)).map (fun s => (s.closers 0, s.reg.pcs.map (·.2)))
-      = some (.flushPc, [.idle, .idle, .idle, .idle]) := by decide
-  rw [hr] at h1
-  simp only [Option.map_some, Option.some.injEq, Prod.mk.injEq] at h1
-  obtain ⟨hpc, hpcs⟩ := h1
-  have hidle : ∀ t, pcOf s.reg t = .idle := Registry.all_idle_of_pcs (by
-    intro q hq
-    have : q.2 ∈ s.reg.pcs.map (·.2) := List.mem_map_of_mem hq
-    rw [hpcs] at this
-    simpa using this)
-  refine ⟨s, hr, hpc, ?_⟩
-  rintro ⟨tok, _, t, _, ⟨r', sid, x, hp, _⟩ | ⟨r', sid, pd, hp, _⟩⟩ <;> rw [hidle t] at hp <;> cases hp
+/-- `life_final_flush_complete` applies to that run at its final flush (after 55 events call 0 has purged and is about
+to flush), and `life_final_flush_covers_everything` at its end: the final flush is `flush 4`, and the barrier tokens
+0, 1, 2 are at positions below 4 of `delivered` counted from the oldest -/
+example : (∃ s, run id (init id true true (some 7)) (nvRun.take 55) = some s ∧ s.closers 0 = .flushPc ∧
+      ¬ ReacquireInFlight s) ∧
+    ∃ s, run id (init id true true (some 7)) nvRun = some s ∧
+      ∃ rest, s.log = .reporterClose 4 :: .flush 4 :: rest ∧
+        ∀ tok ∈ s.reg.delivered, Barrier s tok → ∃ i, i < 4 ∧ s.reg.delivered.reverse[i]? = some tok := by
+  constructor
+  · have hs : (run id (init id true true (some 7)) (nvRun.take 55)).isSome = true := by decide
+    obtain ⟨s, hr⟩ := Option.isSome_iff_exists.mp hs
+    have h1 : (run id (init id true true (some 7)) (nvRun.take 55)).map (fun s => s.closers 0) = some .flushPc := by
+      decide
+    rw [hr] at h1
+    have hpc : s.closers 0 = .flushPc := Option.some.inj h1
+    exact ⟨s, hr, hpc, (life_final_flush_complete id_idem hr 0 hpc).2⟩
+  · have hs : (run id (init id true true (some 7)) nvRun).isSome = true := by decide
+    obtain ⟨s, hr⟩ := Option.isSome_iff_exists.mp hs
+    have hfin := nvRun_final.1
+    rw [hr] at hfin
+    simp only [Option.map_some, Option.some.injEq, Prod.mk.injEq] at hfin
+    obtain ⟨hret, hlog, _, _⟩ := hfin
+    obtain ⟨n, rest, hl, _, hall⟩ := life_final_flush_covers_everything id_idem hr 0 (Or.inr ⟨some 7, hret⟩)
+    rw [hlog] at hl
+    rcases hl with hl | ⟨k, hl⟩
+    · cases hl
+    · simp only [List.cons.injEq, LogEv.reporterClose.injEq, LogEv.flush.injEq] at hl
+      obtain ⟨_, hn, hrest⟩ := hl
+      subst hn
+      refine ⟨s, hr, [.flush 2], hlog, ?_⟩
+      intro tok hm hb
+      exact (hall tok (by simp [hm]) hb).2.2
 
 end Tally.Props.C08Life
